@@ -38,45 +38,45 @@ def model_run(model, events):
 
 
 def monitor(events, steps, wtimes):
-    """Independent reference: replay the log against a FIFO of outstanding calls and an in-flight slot."""
-    fifo, flight = [], None
+    """Independent reference.  The last data frame written is `in flight` until an ACK carrying its stamped number
+    arrives, 1000 ms of virtual time pass, its sender is cancelled, or the link is closed; a data frame may be
+    written only when no frame is in flight, and only by the head of the FIFO of outstanding send() calls."""
+    fifo, last = [], None      # last = [tag, stamped seq, write time, in_flight?]
     wi = 0
-    last_w_time = None
+    now = 0
     for e, st in zip(events, steps):
+        if e[0] == "tick":
+            now += int(e[1])
         if e[0] == "send":
             fifo.append(int(e[1]))
+        if e[0] == "ack" and last is not None and last[3] and int(e[1]) == last[1]:
+            last[3] = False
+        if e[0] == "uclose" and last is not None:
+            last[3] = False
         if e[0] == "cancelsend":
             t = int(e[1])
-            if flight == t:
-                flight = None
+            if last is not None and last[0] == t:
+                last[3] = False
             elif t in fifo:
                 fifo.remove(t)
-        acked = e[0] == "ack"
-        for x in st:
-            if x.startswith("F:") and x.endswith(":OK") and flight == int(x.split(":")[1]):
-                flight = None
-        for x in st:
-            if x.startswith("U:"):
-                tag = int(x.split(":")[1])
-                t_now = wtimes[wi] if wi < len(wtimes) else None
-                wi += 1
-                if flight is not None:
-                    # the previous frame's wait must have ended: only legitimate inside a tick, >= 1000 ms later
-                    if e[0] != "tick" or t_now is None or last_w_time is None or t_now - last_w_time < 1000:
-                        return "frame of sender %d written while the frame of sender %d was still unacknowledged (event %s)" % (tag, flight, e)
-                if not fifo or fifo[0] != tag:
-                    return "sender %d written out of turn (outstanding calls in order: %s)" % (tag, fifo)
-                fifo.pop(0)
-                flight = tag
-                last_w_time = t_now
+        for x in sorted(st, key=lambda y: 0 if y.startswith("U:") else 1):
             if x.startswith("F:") and x.endswith(":OK"):
                 tag = int(x.split(":")[1])
-                if flight == tag:
-                    flight = None
-                elif tag in fifo:      # served without a write (no transport)
+                if tag in fifo:        # served without a write (no transport)
                     if fifo[0] != tag:
                         return "sender %d finished out of turn" % tag
                     fifo.pop(0)
+            if x.startswith("U:"):
+                tag, seq = int(x.split(":")[1]), int(x.split(":")[2])
+                t_now = wtimes[wi] if wi < len(wtimes) else now
+                wi += 1
+                if last is not None and last[3] and t_now - last[2] < 1000:
+                    return ("frame of sender %d written at %d ms while the frame of sender %d (stamped %d, written at %d ms) was "
+                            "neither acknowledged nor expired nor cancelled (event %s)" % (tag, t_now, last[0], last[1], last[2], e))
+                if not fifo or fifo[0] != tag:
+                    return "sender %d written out of turn (outstanding calls in order: %s)" % (tag, fifo)
+                fifo.pop(0)
+                last = [tag, seq, t_now, True]
     return None
 
 
